@@ -158,8 +158,16 @@ impl Property for C10 {
 
         // compares one analysis on the aged pair with a fresh pair
         let mut compare = |rep: &mut Report, tok: &mut StatefulTokenizer<&Dict>, list: &mut MorphemeList<&Dict>, text: &str, mode: Mode, subset: Option<InfoSubset>, collect: bool, what: &str| -> Option<bool> {
-            tok.reset().push_str(text);
-            let aged = tok.do_tokenize();
+            let aged = match guarded(|| {
+                tok.reset().push_str(text);
+                tok.do_tokenize()
+            }) {
+                Ok(r) => r,
+                Err(p) => {
+                    rep.fail(&format!("aged-panic:{}", panic_site(&p)), format!("{} {:?}: the aged tokenizer panics: {}", what, crate::driver::truncate(text, 60), p));
+                    return None;
+                }
+            };
             let mut fresh_tok = StatefulTokenizer::new(&dict, mode);
             if let Some(s) = subset {
                 fresh_tok.set_subset(s);
@@ -194,7 +202,13 @@ impl Property for C10 {
             let mut fl = MorphemeList::empty(&dict);
             let _ = fl.collect_results(&mut fresh_tok);
             let s = subset.map(|x| x.normalize()).unwrap_or(InfoSubset::all());
-            let (a, f) = (observe(list, s), observe(&fl, s));
+            let (a, f) = match guarded(|| (observe(list, s), observe(&fl, s))) {
+                Ok(x) => x,
+                Err(p) => {
+                    rep.fail(&format!("aged-read-panic:{}", panic_site(&p)), format!("{} {:?}: reading the morphemes of the reused list panics: {}", what, short, p));
+                    return None;
+                }
+            };
             if a != f {
                 let k = a.iter().zip(f.iter()).position(|(x, y)| x != y).unwrap_or(a.len().min(f.len()));
                 rep.fail(
